@@ -137,7 +137,9 @@ def _chunk(args: tuple) -> dict:
                     k = (x["rule"], x["key"])
                     out["viol_count"][k] += 1
                     if out["viol_count"][k] <= 2:
-                        out["viol"].append({"plan": plan, "rule": x["rule"], "key": x["key"], "msg": x["msg"]})
+                        out["viol"].append(
+                            {"plan": plan, "rule": x["rule"], "key": x["key"], "msg": x["msg"], "chunk_start": start}
+                        )
                 else:
                     out["other_rules"][x["rule"]] += 1
             if len(out["samples"]) < 1 and res["nontrivial"]:
@@ -176,14 +178,86 @@ def run_batch(
         for j in jobs:
             results[j[3]] = _chunk(j)
     else:
-        ctx = multiprocessing.get_context("fork")
-        with ProcessPoolExecutor(max_workers=workers, mp_context=ctx) as ex:
-            futs = {ex.submit(_chunk, j): j for j in jobs}
-            for f in as_completed(futs):
-                results[futs[f][3]] = f.result()
+        # every chunk runs in its own process forked from this (pristine) parent, so a
+        # chunk's outcome is a function of its index range only: whatever process-global
+        # state the code under test keeps can depend on earlier runs of the same chunk
+        # at most, which is what replay preludes reproduce
+        for j, r in fork_map(_chunk, jobs, workers, timeout=wall_budget + 60):
+            results[j[3]] = r
     for start in sorted(results):
         merged = merge_into(merged, results[start])
     return merged
+
+
+def fork_map(fn, jobs: list, workers: int, timeout: float = 900.0):
+    """Run fn(job) for every job, each in a freshly forked child; yield (job, result)."""
+    import pickle
+    import select
+
+    pending = list(jobs)
+    running: dict[int, tuple] = {}  # fd -> (pid, job, chunks, t0)
+    deadline_of: dict[int, float] = {}
+    while pending or running:
+        while pending and len(running) < workers:
+            job = pending.pop(0)
+            rfd, wfd = os.pipe()
+            pid = os.fork()
+            if pid == 0:
+                try:
+                    os.close(rfd)
+                    try:
+                        payload = pickle.dumps(("ok", fn(job)))
+                    except BaseException as e:  # noqa: BLE001
+                        payload = pickle.dumps(("err", f"{type(e).__name__}: {e}\n{traceback.format_exc()[-2000:]}"))
+                    with os.fdopen(wfd, "wb") as f:
+                        f.write(payload)
+                finally:
+                    os._exit(0)
+            os.close(wfd)
+            running[rfd] = (pid, job, [], time.monotonic())
+        ready, _, _ = select.select(list(running), [], [], 1.0)
+        now = time.monotonic()
+        for fd in list(running):
+            pid, job, chunks, t0 = running[fd]
+            if fd in ready:
+                data = os.read(fd, 1 << 20)
+                if data:
+                    chunks.append(data)
+                    continue
+                os.close(fd)
+                os.waitpid(pid, 0)
+                del running[fd]
+                raw = b"".join(chunks)
+                if not raw:
+                    raise RuntimeError(f"worker for job {job[3:5] if isinstance(job, tuple) else job} died without a result")
+                kind, val = pickle.loads(raw)
+                if kind == "err":
+                    raise RuntimeError(f"worker failed: {val}")
+                yield job, val
+            elif now - t0 > timeout:
+                try:
+                    os.kill(pid, 9)
+                except OSError:
+                    pass
+                os.close(fd)
+                os.waitpid(pid, 0)
+                del running[fd]
+                raise RuntimeError(f"worker exceeded wall budget {timeout}s")
+
+
+def hermetic(fn, *args, timeout: float = 120.0):
+    """Run fn(*args) in a child forked from this process and return its result."""
+    for _job, res in fork_map(lambda a: fn(*a), [args], 1, timeout=timeout):
+        return res
+    raise RuntimeError("no result")
+
+
+def execute_sequence(plans: list, **kw: Any) -> dict:
+    """Execute plans one after another in this process; return the result of the last."""
+    res: dict = {}
+    for p in plans:
+        res = execute(p, **kw)
+    return res
 
 
 def merge_into(merged: dict, r: dict) -> dict:
